@@ -127,7 +127,7 @@ def gen_config(rng, size="small", uniform=None):
         alt = [rng.choice([0.0, 0.0, 90000.0, rng.uniform(15000, 90000)]) for _ in range(nw)]
         gs = [[rng.choice([0.0, rng.uniform(-60, 60)]), rng.choice([0.0, rng.uniform(-60, 60)])] for _ in range(nw)]
     nl = rng.choice([1, 1, 2, 3]) if size == "small" else rng.randint(1, 4)
-    layers = [{"h": rng.choice([0.0, rng.uniform(0, 12000)]), "r0": rng.uniform(0.05, 1.0), "L0": rng.uniform(5, 100)} for _ in range(nl)]
+    layers = [{"h": rng.choice([0.0, rng.uniform(0, 12000)]), "r0": rng.uniform(0.05, 1.0), "L0": rng.choice([rng.uniform(5, 100), rng.uniform(5, 100), rng.uniform(1, 5)])} for _ in range(nl)]   # incl. outer scales below the pupil size
     maxn = max(max(len(MASKS[m]), len(MASKS[m][0])) for m in mk)
     D = maxn * max(d)
     wvl = [rng.choice([500e-9, rng.uniform(4e-7, 2e-6)]) for _ in range(nw)]
